@@ -480,8 +480,110 @@ def create_cases():
     return out
 
 
+# ---------------------------------------------------------------------------------------
+# what the caller sees as return data: the output of the most recent sub-frame, whatever else its trace recorded since
+
+
+def _mk_ctx(trace):
+    import itertools as _it  # noqa
+
+    from halmos.utils import EVM, con, con_addr
+
+    msg = hs.Message(target=THIS, caller=CALLER, origin=ORIGIN, value=con(0), data=ByteVec(), call_scheme=EVM.CALL, is_static=False)
+    c = hs.CallContext(msg)
+    c.trace.extend(trace)
+    return c
+
+
+def _trace_of(shape, subs):
+    slot = hb.HalmosBitVec(1)
+    out = []
+    for k, kd in enumerate(shape):
+        if kd == "C":
+            out.append(subs[k])
+        elif kd == "R":
+            out.append(hs.StorageRead(con_this(), slot, slot, False))
+        elif kd == "W":
+            out.append(hs.StorageWrite(con_this(), slot, slot, False))
+        else:
+            out.append(hs.EventLog(con_this(), [], ByteVec()))
+    return out
+
+
+def con_this():
+    return THIS
+
+
+def replay_last_subcall(r):
+    """native: a frame that called (the callee returned 32 bytes), then read and wrote storage and logged: real last_subcall / returndata"""
+    sub = _mk_ctx([])
+    sub.output.data = ByteVec(b"\x2a".rjust(32, b"\x00"))
+    bad = []
+    for shape in ("C", "CR", "CW", "CL", "CRWL", "RCW"):
+        ctx0 = _mk_ctx(_trace_of(shape, [sub] * len(shape)))
+        got = ctx0.last_subcall()
+        ex = mk_ex(mk_sevm(), b"\x00")
+        ex.context.trace.extend(ctx0.trace)
+        size = ex.returndatasize()
+        if got is not sub or size != 32:
+            bad.append(f"trace {shape} (C = the sub-call, R/W = storage read/write, L = log): last_subcall() is {'the sub-call' if got is sub else got!r}, RETURNDATASIZE = {size} (the callee returned 32 bytes)")
+    if bad:
+        return {"reproduced": True, "detail": "; ".join(bad), "inputs": "call; sload/sstore/log; returndatasize"}
+    return {"reproduced": False, "detail": "last_subcall() is the sub-call and RETURNDATASIZE is 32 whatever the frame recorded after the call"}
+
+
+def returndata_cases():
+    import itertools
+
+    out = []
+
+    def harness_last(interp):
+        ctx = interp.ctx
+        for n in range(0, 5):
+            for shape in itertools.product("CRWL", repeat=n):
+                subs = [_mk_ctx([]) for _ in shape]
+                ctx0 = _mk_ctx(_trace_of(shape, subs))
+                want = None
+                for k, kd in enumerate(shape):
+                    if kd == "C":
+                        want = subs[k]
+                got = interp.call(hs.CallContext.__dict__["last_subcall"], [ctx0], {})
+                ctx.oblige("last_subcall: the most recent sub-frame of the trace (None only if there is none), whatever storage accesses and logs were recorded after it", z3.BoolVal(got is want), info={"trace": "".join(shape)})
+                ctx.oblige("last_subcall: the trace is not modified", z3.BoolVal(len(ctx0.trace) == n))
+
+    out.append(Case(f"{PROP}/sevm.CallContext.last_subcall", "every trace of up to 4 elements over {sub-frame, storage read, storage write, log}", harness_last, replay=replay_last_subcall, sources=("halmos.sevm:CallContext.last_subcall",)))
+
+    for kind in ("no sub-frame", "call returned", "call failed", "creation succeeded", "creation failed"):
+
+        def harness_rd(interp, kind=kind):
+            ctx = interp.ctx
+            data = ByteVec(b"\x01\x02\x03")
+            if kind == "no sub-frame":
+                sub = None
+            else:
+                sub = _mk_ctx([])
+                sub.output.data = data
+                if "failed" in kind:
+                    sub.output.error = Revert()
+                if kind.startswith("creation"):
+                    from halmos.utils import EVM
+
+                    object.__setattr__(sub.message, "call_scheme", EVM.CREATE)
+            ex = mk_ex(mk_sevm(), b"\x00")
+            interp.contracts["halmos.sevm:CallContext.last_subcall"] = lambda interp_, a, kw: sub
+            got = interp.call(hs.Exec.__dict__["returndata"], [ex], {})
+            size = interp.call(hs.Exec.__dict__["returndatasize"], [ex], {})
+            if kind in ("no sub-frame", "creation succeeded"):
+                ctx.oblige("returndata: empty without a sub-frame and after a successful creation", z3.BoolVal(got is not None and len(got) == 0 and size == 0))
+            else:
+                ctx.oblige("returndata: the output of the most recent sub-frame (return data, or the revert data of a failed call / creation)", z3.BoolVal(got is data and size == 3))
+
+        out.append(Case(f"{PROP}/sevm.Exec.returndata", kind, harness_rd, replay=replay_last_subcall, sources=("halmos.sevm:Exec.returndata", "halmos.sevm:Exec.returndatasize")))
+    return out
+
+
 def build_cases(tier="quick"):
-    return message_cases() + callback_cases() + funds_cases() + static_cases() + create_cases()
+    return returndata_cases() + message_cases() + callback_cases() + funds_cases() + static_cases() + create_cases()
 
 
 ASSUMPTIONS = [
